@@ -147,6 +147,9 @@ def lem_struct_cong(kind, a, b, n):
         z3.Implies(z3.ForAll([k2], z3.Implies(z3.And(k2 >= 0, k2 < n), outs(a[k2]) == ins(b[k2]))), TreeOut(a, n) == TreeIn(b, n)))
 
 
+DTypeTok = z3.DeclareSort('DTypeTok')
+promoted = z3.Function('promoted_dtype', Struct, DTypeTok)
+cast_to = z3.Function('cast_to', DTypeTok, z3.RealSort(), z3.RealSort())
 fld_operator = z3.Function('fld_operator', Op, Op)
 cls_of = z3.Function('cls', Op, z3.IntSort())     # class tag: index into the real class table (closed world)
 
@@ -277,7 +280,7 @@ class AlgTheory(Theory):
             self.instantiate_overrides[self.cls_hom.fullname] = self.mk_homothety
         self.module_overrides[('furax._base.rules', 'BINARY_RULE_REGISTRY')] = lambda interp: self.registry()
         self.externals['jax.numpy.array'] = lambda interp, v, **kw: v
-        self.externals['jax.numpy.asarray'] = lambda interp, v, **kw: v if isinstance(v, ScalarArr) else ScalarArr(v, ())
+        self.externals['jax.numpy.asarray'] = self.asarray
         self.externals['jax.tree.map'] = self.tree_map
         self.externals['jax.tree.leaves'] = self.tree_leaves
         self.externals['jax.tree.all'] = self.tree_all
@@ -286,8 +289,22 @@ class AlgTheory(Theory):
         from props import C08
         C08.patch_class_table(program)        # decorators' rewiring (square / symmetric / orthogonal), real bodies
 
+    def asarray(self, interp, v, dtype=None, **kw):
+        """jnp.asarray(k): the value itself; jnp.asarray(k, dtype=d): the value CAST to d (an uninterpreted function of
+        d and k: a cast may truncate or fail, so nothing is assumed about it)"""
+        if isinstance(v, ScalarArr):
+            val, shape = v.value, v.shape
+        else:
+            val, shape = v, ()
+        if dtype is not None:
+            val = cast_to(dtype if is_z3(dtype) else z3.Const('some_dtype', DTypeTok), B.to_real(val))
+        return ScalarArr(val, shape)
+
     # ---- flat pytree containers of operators (list / tuple / dict collapse to their leaf sequence + a treedef token)
     def tree_leaves(self, interp, tree, is_leaf=None):
+        if is_leaf is None and (isinstance(tree, B.PyList) or (is_z3(tree) and tree.sort() == Op)):
+            # operators are pytrees themselves: without is_leaf=... jax descends into their array fields
+            raise Unsupported('jax.tree.leaves over operators without is_leaf descends into the operators\' own fields')
         if isinstance(tree, B.PyList):
             return B.PyList(None, seq=tree.as_seq()) if tree.seq is not None else B.PyList(list(tree.items))
         if is_z3(tree) and tree.sort() == Op:
@@ -295,6 +312,8 @@ class AlgTheory(Theory):
         raise Unsupported(f'tree.leaves of {tree!r} in the alg facet')
 
     def tree_map(self, interp, f, tree, *rest, is_leaf=None):
+        if is_leaf is None and (isinstance(tree, B.PyList) or (is_z3(tree) and tree.sort() == Op)):
+            raise Unsupported('jax.tree.map over operators without is_leaf descends into the operators\' own fields')
         if is_z3(tree) and tree.sort() == Op:
             return interp.call(f, [tree] + list(rest), {})
         if not isinstance(tree, B.PyList):
@@ -811,4 +830,8 @@ def plain_call_hook(interp, fi, args, kwargs):
             return (ins(t),)
         if fi.name == 'out_structure':
             return (outs(t),)
+        if fi.name == 'out_promoted_dtype':
+            return (promoted(outs(t)),)
+        if fi.name == 'in_promoted_dtype':
+            return (promoted(ins(t)),)
     return None
